@@ -1,5 +1,6 @@
 import DirectVerif.Gen.C11
 import DirectVerif.Model.SslSplit
+import DirectVerif.Model.SslHistory
 /-!
 # Bridge C11 — what the translator read in `/repo` equals the hand-written model
 
@@ -182,5 +183,53 @@ theorem seed_is_none_eq (useSeed : Bool) : seed_is_none useSeed = !useSeed := by
   cases useSeed <;> decide
 theorem gaussian_seed_eq (t : List Nat) : gaussian_seed t = gaussianSeed t := by
   simp only [gaussian_seed, gaussianSeed, Int.fdiv_eq_ediv_of_nonneg _ (Int.natCast_nonneg _)]
+
+/-! ## state kept between calls, the seed across processes, admissible ratios -/
+
+/-- **no splitter keeps anything between calls**: in `direct/ssl/ssl.py` and `direct/ssl/mask_fillers.py` every write to
+an object attribute, a class attribute, a module global or a mutable default is a plain `self.<attr> = …` in a
+constructor, and no function carries a memoising decorator — so a splitter object is the state-free machine
+`runHist none` of the model -/
+theorem state_writes_ok : stateWritesOk state_writes = true := by decide
+
+theorem forward_keeps_no_memo : memoOfTable state_writes = none := by
+  unfold memoOfTable; rw [state_writes_ok]; rfl
+
+/-- the table speaks about every function `forward` can reach inside the two modules -/
+theorem forward_reach_scanned :
+    reachCovered state_scanned forward_reach = true ∧ forward_unresolved = [] ∧
+      forward_reach.contains "MaskSplitter.forward" = true := by decide
+
+/-- the seed derivation calls nothing that is private to an interpreter process (no salted `hash`, `id`, pid, clock,
+`random`) -/
+theorem seed_calls_ok : seedCallsOk seed_calls = true := by decide
+
+/-- …and is the model's derivation, which does not read the process at all -/
+theorem seed_of_code_eq (p : Proc) (filename slice : List Nat) :
+    seedOfCode p filename slice = seed_tuple filename slice := rfl
+
+/-- **every reader of the split keys under `direct/nn`** — the two `_do_iteration`s of `direct/nn/ssl`, the two vSHARP
+engines that re-implement the training step, the forward functions of the U-Net and VarNet SSL / JSSL engines —
+reads the split input exactly when `engineUsesSplit` says so, and every `_do_iteration` projects on the target mask -/
+theorem engine_sites_ok : engine_sites.all engineSiteOk = true := by decide
+
+/-- …and these are all of them (a new reader must be added to the model and to the probes of the check) -/
+theorem engine_sites_names : engine_sites.map (·.name) =
+    ["SSLMRIModelEngine._do_iteration", "JSSLMRIModelEngine._do_iteration", "Unet2dSSLEngine.forward_function",
+     "Unet2dJSSLEngine.forward_function", "EndToEndVarNetSSLEngine.forward_function",
+     "EndToEndVarNetJSSLEngine.forward_function", "VSharpNetSSLEngine._do_iteration",
+     "VSharpNetJSSLEngine._do_iteration"] := by decide
+
+/-- the k-space path of the vSHARP engines' training step: data consistency with the prediction masked by the complement
+of the input mask (inside `_forward_operator`), then the projection on the target mask — `sslOutput` again -/
+theorem vsharp_kpath_eq :
+    vsharp_ssl_engine_kpath.take 2 = ["dc:kspace+self._forward_operator(output_image,data['sensitivity_map'],~mask)",
+                                       "mask:output_kspace:data['target_sampling_mask']"] ∧
+    vsharp_jssl_engine_kpath.take 2 = vsharp_ssl_engine_kpath.take 2 := by decide
+
+/-- `0 < r < 1` for every ratio, as `ratioValid` -/
+theorem ratio_guard_eq (p q : Int) : ratio_guard p q = ratioValid p q := by
+  rw [Bool.eq_iff_iff]
+  simp only [ratio_guard, ratioValid, Bool.and_eq_true, decide_eq_true_eq, Int.zero_mul, Int.mul_one, Int.one_mul]
 
 end DirectVerif.Bridge.C11
